@@ -73,7 +73,12 @@ STAT_RE = re.compile(r"(\d+) states generated, (\d+) distinct states found")
 
 
 def run_tlc(module, cfg, metadir, workers=1, env=None, timeout=3600, heap="4g", extra=()):
-    cmd = java(heap) + ["-metadir", metadir, "-workers", str(workers), "-config", cfg] + list(extra) + [module]
+    # TLC unpacks its standard modules into java.io.tmpdir on every start: keep that out of /tmp (one directory per run,
+    # removed afterwards; tens of thousands of them had piled up in /tmp)
+    tmpd = metadir.rstrip("/") + ".jtmp"
+    os.makedirs(tmpd, exist_ok=True)
+    j = java(heap)
+    cmd = j[:1] + ["-Djava.io.tmpdir=" + tmpd] + j[1:] + ["-metadir", metadir, "-workers", str(workers), "-config", cfg] + list(extra) + [module]
     e = dict(os.environ)
     if env:
         e.update(env)
@@ -81,9 +86,19 @@ def run_tlc(module, cfg, metadir, workers=1, env=None, timeout=3600, heap="4g", 
     try:
         p = subprocess.run(cmd, cwd=SPEC, env=e, capture_output=True, text=True, timeout=timeout)
     except subprocess.TimeoutExpired:
+        shutil.rmtree(tmpd, ignore_errors=True)
         raise Infra("TLC timeout on %s %s" % (module, cfg))
     out = p.stdout + p.stderr
     shutil.rmtree(metadir, ignore_errors=True)
+    shutil.rmtree(tmpd, ignore_errors=True)
+    if "_TTrace_" in out:
+        # TLC writes a trace-exploration spec next to the module when it reports an error
+        import glob as _g
+        for f in _g.glob(os.path.join(SPEC, "*_TTrace_*")):
+            try:
+                os.remove(f)
+            except OSError:
+                pass
     m = STAT_RE.findall(out)
     gen, dist = (int(m[-1][0]), int(m[-1][1])) if m else (0, 0)
     return dict(rc=p.returncode, out=out, generated=gen, distinct=dist, wall=time.time() - t0)
